@@ -136,7 +136,7 @@ def gen_case(seed, tier, index=0):
         extra = A.template_files([t])
     if family == "usage":
         usage = rng.pick(["no-info", "mutex-lines", "mutex-style", "unknown-template", "unsupported-line", "unsupported-line",
-                          "unsupported-line", "unrecognised", "mutex-year"])
+                          "unsupported-line", "unrecognised", "mutex-year", "nonexistent"])
         if usage == "no-info":
             opts["holders"], opts["licenses"] = [], []
             opts.pop("contributors", None)
@@ -174,6 +174,9 @@ def gen_case(seed, tier, index=0):
                 metas.append({"kind": "styled", "style": "python" if which == "single_line" else "cpp", "path": other, "existing_lic": False, "sibling": False})
             files.insert(pos, {"path": name, "content": G.body_for(style)})
             metas.insert(pos, {"kind": "styled", "style": style, "path": name, "existing_lic": False, "sibling": False})
+        elif usage == "nonexistent":
+            # one of the named paths does not exist: nothing at all may be annotated
+            alias_names.append(rng.pick(["d0/no-such-file.py", "nowhere/x.c", "d1/f99.py.license"]))
         elif usage == "unrecognised":
             for f in ("force_dot_license", "fallback_dot_license", "skip_unrecognised", "style"):
                 opts.pop(f, None)
